@@ -344,7 +344,10 @@ impl Opts {
 
 fn first_with_class<S: Scenario>(s: &S, case: &S::Case, class: &str) -> Option<(Viol, S::Case)> {
     let mut scratch = Stats::default();
-    let out = s.exec(case, &mut scratch);
+    let out = match guard(|| s.exec(case, &mut scratch)) {
+        Ok(out) => out,
+        Err(p) => RunOut { digest: 0, violations: vec![(Viol { class: format!("oracle_panic:{}", p.loc), detail: p.msg }, None)] },
+    };
     for (v, sub) in out.violations {
         if v.class == class {
             return Some((v, sub.unwrap_or_else(|| case.clone())));
@@ -406,8 +409,11 @@ pub fn replay<S: Scenario>(s: S, j: &J, timeout_s: u64) -> i32 {
     let (tx, rx) = std::sync::mpsc::channel();
     let th = std::thread::Builder::new().stack_size(256 << 20).spawn(move || {
         let mut st = Stats::default();
-        let out = s.exec(&case, &mut st);
-        let _ = tx.send(out.violations.into_iter().map(|(v, _)| v).collect::<Vec<Viol>>());
+        let viols = match guard(|| s.exec(&case, &mut st)) {
+            Ok(out) => out.violations.into_iter().map(|(v, _)| v).collect::<Vec<Viol>>(),
+            Err(p) => vec![Viol { class: format!("oracle_panic:{}", p.loc), detail: p.msg }],
+        };
+        let _ = tx.send(viols);
     });
     if th.is_err() {
         eprintln!("HARNESS-ERROR: cannot spawn replay thread");
@@ -638,7 +644,15 @@ pub fn run_inner<S: Scenario>(s: S, o: &Opts) -> i32 {
                     slots[w].1.store(t0.elapsed().as_millis() as u64, Ordering::SeqCst);
                     slots[w].0.store(run + 1, Ordering::SeqCst);
                     let case = s.gen(o.seed, run);
-                    let out = s.exec(&case, &mut stats);
+                    // a panic of the oracle itself (the library drove it somewhere it assumed impossible) is a
+                    // failed run with a replay, not the end of the batch
+                    let out = match guard(|| s.exec(&case, &mut stats)) {
+                        Ok(out) => out,
+                        Err(p) => RunOut {
+                            digest: 0,
+                            violations: vec![(Viol { class: format!("oracle_panic:{}", p.loc), detail: format!("the oracle panicked while judging this run at {}: {}", p.loc, p.msg) }, None)],
+                        },
+                    };
                     stats.evaluations += 1;
                     let mut d = Fnv::new();
                     d.u64(run);
